@@ -37,7 +37,7 @@ static int helper_ok;
 
 static void logf_(const char *fmt, ...)
 {
-	char buf[8192];
+	char buf[40000];
 	va_list ap;
 	int n;
 	va_start(ap, fmt);
@@ -71,7 +71,7 @@ static void hexstr(char *out, size_t cap, const char *s)
 
 static void log1(const char *fn, const char *a)
 {
-	char h[4200];
+	char h[9000];
 	if (!in_library)
 		return;
 	hexstr(h, sizeof(h), a);
@@ -80,7 +80,7 @@ static void log1(const char *fn, const char *a)
 
 static void log2(const char *fn, const char *a, const char *b)
 {
-	char h1[4200], h2[4200];
+	char h1[9000], h2[9000];
 	if (!in_library)
 		return;
 	hexstr(h1, sizeof(h1), a);
@@ -224,11 +224,11 @@ pid_t __wrap_vfork(void)
 
 static void log_exec(const char *fn, const char *file, char *const argv[])
 {
-	char line[8000], h[2100];
+	char line[38000], h[9000];
 	int pos, i;
 	hexstr(h, sizeof(h), file);
 	pos = snprintf(line, sizeof(line), "sys %s %s", fn, h);
-	for (i = 0; argv && argv[i] && i < 40 && pos < (int)sizeof(line) - 2200; i++) {
+	for (i = 0; argv && argv[i] && i < 40 && pos < (int)sizeof(line) - 9100; i++) {
 		hexstr(h, sizeof(h), argv[i]);
 		pos += snprintf(line + pos, sizeof(line) - pos, " %s", h);
 	}
